@@ -562,6 +562,34 @@ pub fn synthetic_project(seed: u64) -> Project {
         extra_keys.push("Mapped: Mapped".into());
     }
     let in_m1: Vec<&String> = (0..n_types).filter(|i| file_of[*i] == 1).map(|i| &names[i]).collect();
+    if rng.chance(1, 4) {
+        // tuples and projections with literal indices (inside, at and beyond the fixed length)
+        let tup = match rng.below(3) {
+            0 => "[string, number]".to_string(),
+            1 => "[string, ...number[]]".to_string(),
+            _ => format!("[{}, boolean, ...string[]]", names[rng.below(n_types)]),
+        };
+        extra_decls.push(format!("export type Tup = {};", tup));
+        let idx = ["0", "1", "2", "3", "number", "0 | 1", "0 | 2", "1 | 2"][rng.below(8)];
+        extra_decls.push(format!("export type TupAt = Tup[{}];", idx));
+        extra_keys.push("Tup: Tup".into());
+        extra_keys.push("TupAt: TupAt".into());
+    }
+    if rng.chance(1, 5) {
+        // unions / intersections whose members evaluate to never
+        let a = names[rng.below(n_types)].clone();
+        let body = match rng.below(6) {
+            0 => format!("Exclude<{}, {}>", a, a),
+            1 => "Exclude<\"a\", \"a\"> | Exclude<1, 1>".to_string(),
+            2 => "never | never".to_string(),
+            3 => "keyof {}".to_string(),
+            4 => format!("Exclude<{}, {}> | Exclude<string, string>", a, a),
+            _ => "(string & number) | (\"a\" & \"b\")".to_string(),
+        };
+        extra_decls.push(format!("export type Nothing = {};", body));
+        extra_decls.push("export type HasNothing = { n: Nothing; ok: string; list: Nothing[] };".into());
+        extra_keys.push(if rng.chance(1, 2) { "Nothing: Nothing".into() } else { "HasNothing: HasNothing".into() });
+    }
     let ns_import = n_files >= 2 && !in_m1.is_empty() && rng.chance(1, 3);
     let ns_members: String = in_m1.iter().take(2).map(|n| format!("M1.{}", n)).collect::<Vec<_>>().join(" | ");
     // type queries evaluated by the semantic engine on (possibly recursive) named types
